@@ -166,6 +166,10 @@ extern int _vnadata_convert_to_z0(vnadata_internal_t *vdip);
 extern const char *_vnadata_format_to_name(const vnadata_format_descriptor_t
 	*format);
 
+/* _vnadata_set_format: set the format string on behalf of a file loader */
+extern int _vnadata_set_format(vnadata_t *vdp, const char *format,
+	const char *filename, int line);
+
 /* _vnadata_update_format_string: recompute vdi_format_string */
 extern int _vnadata_update_format_string(vnadata_internal_t *vdip);
 
